@@ -226,7 +226,8 @@ def audit(prop_id, module, theorems):
     ad = os.path.join(LEAN, 'PistacheModel', 'Audit')
     os.makedirs(ad, exist_ok=True)
     path = os.path.join(ad, prop_id + '.lean')
-    body = 'import %s\n' % module + ''.join('#print axioms %s\n' % t for t in theorems)
+    mods = module if isinstance(module, (list, tuple)) else [module]
+    body = ''.join('import %s\n' % m for m in mods) + ''.join('#print axioms %s\n' % t for t in theorems)
     open(path, 'w').write(body)
     p = subprocess.run(['lake', 'env', 'lean', path], cwd=LEAN, capture_output=True, text=True)
     out = p.stdout + p.stderr
@@ -270,7 +271,7 @@ def lean_side(prop_id, modules, theorems, thorough=False):
         if hits:
             res['problems'].append('forbidden constructs: ' + '; '.join(hits[:5]))
         if rc == 0:
-            ok, bad, aout = audit(prop_id, modules[-1], theorems)
+            ok, bad, aout = audit(prop_id, modules, theorems)
             res['discharged'] = len(ok)
             for t, why in bad.items():
                 res['problems'].append('audit: %s %s' % (t, why))
